@@ -106,6 +106,8 @@ theorem encodeName_ok {name w : Bytes} (h : encodeName name = .ok w) :
   · split at h
     · cases h
     · rename_i enc he
+      -- the length test counts the root octet (regenerated fact `Gen.Dns.encodeLimitCountsRoot`)
+      rw [if_pos (show Gen.Dns.encodeLimitCountsRoot = true from rfl)] at h
       split at h
       · cases h
       · rename_i hlen
